@@ -601,6 +601,11 @@ func reportA(t vcore.Failer, c CaseA, v *vcore.Violation) {
 		return
 	}
 	key := v.Key
+	if key == "perio-stuck" || key == "close-hang" {
+		// each run of such a case waits out a 10-15 s deadline: report it as found
+		vcore.Report(t, v, map[string]any{"a": c})
+		return
+	}
 	c.Evs = vcore.MinimizeSlice(c.Evs, func(evs []Ev) bool {
 		x, _ := runA(CaseA{Evs: evs})
 		return x != nil && x.Key == key
